@@ -212,6 +212,20 @@ def gen_registry():
                 'SpaceSeparatedListOfStrings', 'SpaceSeparatedSetOfStrings', 'CommaSeparatedListOfStrings',
                 'CommaSeparatedSetOfStrings'}
 
+    # --- which methods every value class overrides (so that no class is silently skipped)
+    WATCH = ('set', 'setValue', '_setValue', '__str__', 'serialize', '__call__', 'normalize', 'error', 'splitter', 'joiner')
+    def overrides(tree, names):
+        out = []
+        for c in sorted((n for n in ast.walk(tree) if isinstance(n, ast.ClassDef)), key=lambda c: c.lineno):
+            if c.name in names:
+                ms = [m.name for m in c.body if isinstance(m, (ast.FunctionDef, ast.AsyncFunctionDef)) and m.name in WATCH]
+                ms += [t.id for m in c.body if isinstance(m, ast.Assign) for t in m.targets if isinstance(t, ast.Name) and t.id in WATCH]
+                out.append((c.name, ms))
+        return out
+    r_over = overrides(reg, set(n for n, _ in rclasses))
+    c_over = overrides(conf, set(n for n, _ in cclasses))
+    MODELLED_CONF = {'SocketTimeout'}
+
     L = []
     L.append('import LimnoriaModel.Py.Basic\nnamespace Gen\nnamespace Registry\n')
     def d(doc, name, ty, val):
@@ -250,5 +264,11 @@ def gen_registry():
       llist('(%s, %s)' % (lstring(n), llist(lstring(b) for b in bs)) for n, bs in cclasses))
     d('registry.py value classes whose logic is inside the Lean model', 'modelledClasses', 'List String',
       llist(lstring(n) for n, _ in rclasses if n in MODELLED))
+    d('methods of the value protocol each registry.py value class overrides', 'registryOverrides', 'List (String × List String)',
+      llist('(%s, %s)' % (lstring(n), llist(lstring(m) for m in ms)) for n, ms in r_over))
+    d('methods of the value protocol each conf.py value class overrides', 'confOverrides', 'List (String × List String)',
+      llist('(%s, %s)' % (lstring(n), llist(lstring(m) for m in ms)) for n, ms in c_over))
+    d('conf.py value classes whose logic is inside the Lean model', 'modelledConfClasses', 'List String',
+      llist(lstring(n) for n, _ in cclasses if n in MODELLED_CONF))
     L.append('end Registry\nend Gen\n')
     write_if_changed('Registry.lean', '\n'.join(L), 'src/registry.py, src/utils/str.py, src/conf.py')
